@@ -165,24 +165,31 @@ def tensor_pow(I, a, p):
 
 
 # ----------------------------------------------------------------------------- C14
-@scenario("C14", [C + "Condition._setup_data_functions", C + "SingleModuleCondition.__init__"], configs=["plain-sampler", "static-sampler"], bounded=BOUND)
+def _user_value(S, f):
+    """the data function as the user hands it over: the bare callable, or (configurations */wrapped) already wrapped in
+    a torchphysics UserFunction -- an object the user may keep using and share between conditions"""
+    return S.new("torchphysics.utils.user_fun.UserFunction", f) if S.cfg.endswith("/wrapped") else f
+
+
+@scenario("C14", [C + "Condition._setup_data_functions", C + "SingleModuleCondition.__init__"], configs=["plain-sampler", "static-sampler", "plain-sampler/wrapped", "static-sampler/wrapped"], bounded=BOUND)
 def user_containers_are_left_unmodified(S):
     """frame: constructing a condition leaves the user's data-function dictionary (keys AND values), the user's
-    function objects and the sampler's observable state unchanged"""
-    w = World(S, static=S.cfg == "static-sampler")
-    user_dict = {"f": w.fdata}
+    function objects (also when they are UserFunction wrappers) and the sampler's observable state unchanged"""
+    w = World(S, static=S.cfg.startswith("static-sampler"))
+    user_dict = {"f": _user_value(S, w.fdata)}
     before = frame.snap(user_dict)
     cond = S.new(C + "SingleModuleCondition", w.model.obj, w.sobj, w.res, w.E, reduce_fn=w.Rd, data_functions=user_dict, parameter=w.D)
     S.ensure("user-dictionary-unchanged", frame.diff(before, frame.snap(user_dict)) is None)
     S.ensure("condition-does-not-alias-the-user-dictionary", S.getattr(cond, "data_functions") is not user_dict)
 
 
-@scenario("C14", [C + "Condition._setup_data_functions", C + "SingleModuleCondition.forward"], configs=["plain-sampler", "static-sampler"], bounded=BOUND + "; two conditions sharing one dictionary (interference is pairwise)")
+@scenario("C14", [C + "Condition._setup_data_functions", C + "SingleModuleCondition.forward"], configs=["plain-sampler", "static-sampler", "plain-sampler/wrapped", "static-sampler/wrapped"], bounded=BOUND + "; two conditions sharing one dictionary (interference is pairwise)")
 def conditions_sharing_a_dictionary_do_not_interfere(S):
-    """post: a second condition built from the SAME user dictionary evaluates the data function on ITS OWN points"""
-    static = S.cfg == "static-sampler"
+    """post: a second condition built from the SAME user dictionary (the same function objects, bare or wrapped)
+    evaluates the data function on ITS OWN points"""
+    static = S.cfg.startswith("static-sampler")
     w1 = World(S, static=static)
-    user_dict = {"f": w1.fdata}
+    user_dict = {"f": _user_value(S, w1.fdata)}
     c1 = S.new(C + "SingleModuleCondition", w1.model.obj, w1.sobj, w1.res, w1.E, reduce_fn=w1.Rd, data_functions=user_dict, parameter=w1.D)
     # second world: own sampler (static as well), shares model, residual, data function dictionary
     n2 = S.int("n2", 1)
